@@ -408,10 +408,18 @@ def _bucket(prop, tier, seed, idx):
     wn = kind_ == "wn"
     r = rng_for(seed, prop, tier, "wnbucket" if wn else "bucket", bidx)
     if wn:
-        kinds = {"C09": ["bnaf"], "C11": ["bnaf", "bnaf", "tri_spline", "tri_spline"], "C12": ["bnaf", "bnaf", "tri_spline"],
+        kinds = {"C09": ["bnaf", "bnaf", "coupling_layer"], "C11": ["bnaf", "bnaf", "tri_spline", "tri_spline"], "C12": ["bnaf", "bnaf", "tri_spline"],
                  "C18": ["bnaf", "bnaf", "tri_spline"]}[prop]
-        spec = _wn_spec(r, r.choice(kinds), prop)
-        if prop == "C09":
+        kind_ = r.choice(kinds)
+        if kind_ == "coupling_layer":
+            # a coupling layer through its own constructor: every split point, not only dim // 2
+            d_ = r.choice([2, 3, 3, 4, 4, 5])
+            spec = {"kind": "coupling_layer", "dim": d_, "untransformed_dim": r.randrange(1, d_), "cond_dim": r.choice([None, None, 2]),
+                    "transformer": r.choice(["affine", "affine", "spline", "loc"]), "width": r.choice([1, 2, 3, 4]), "depth": r.choice([0, 1, 2]),
+                    "invert": r.random() < 0.6}
+        else:
+            spec = _wn_spec(r, kind_, prop)
+        if prop == "C09" and kind_ == "bnaf":
             spec["dim"] = r.choice([1, 2, 3, 3, 4])
         freeze = []
         if prop == "C12":
@@ -681,6 +689,13 @@ def c09_grid():
                             m.update({"knots": 2, "interval": [-4.0, 4.0], "min_derivative": 1e-3, "softmax_adjust": 1e-2})
                         _C09_GRID.append(m)
                         k += 1
+    for dim in (2, 3, 4, 5):
+        for u in range(1, dim):
+            for cond in (None, 2):
+                for tr in ("affine", "spline"):
+                    _C09_GRID.append({"kind": "coupling_layer", "dim": dim, "untransformed_dim": u, "cond_dim": cond, "transformer": tr, "width": 3,
+                                      "depth": 1, "invert": bool(k % 2), "knots": 2})
+                    k += 1
     for dim in (1, 2, 3, 4):
         for cond in (None, 2):
             for depth in (0, 1, 2):
